@@ -389,45 +389,8 @@ theorem expqGet?_miss {e : BExp} {r : Option Nat} {s s' : CState} (h : (expqGet?
 
 /-! ### the fragment -/
 
-mutual
-/-- the compound (non-symbol) sub-expressions of an expression, with repetitions: the keys
-`compile_expr` looks up in / adds to the expression cache while compiling it -/
-def compSubs : BExp → List BExp
-  | .sym _ => []
-  | .tt => [.tt]
-  | .ff => [.ff]
-  | .not a => .not a :: compSubs a
-  | .and l => .and l :: compSubsList l
-  | .or l => .or l :: compSubsList l
-  | .xor l => .xor l :: compSubsList l
-  | .ite c t e => [.ite c t e]
-  | .imp a b => [.imp a b]
-def compSubsList : List BExp → List BExp
-  | [] => []
-  | a :: as => compSubs a ++ compSubsList as
-end
-
-mutual
-/-- built from symbols of `inputs` with `Not` / `And` / `Or` / `Xor` only -/
-def overInputs (inputs : List String) : BExp → Bool
-  | .sym n => inputs.contains n
-  | .not a => overInputs inputs a
-  | .and l => overInputsList inputs l
-  | .or l => overInputsList inputs l
-  | .xor l => overInputsList inputs l
-  | _ => false
-def overInputsList (inputs : List String) : List BExp → Bool
-  | [] => true
-  | a :: as => overInputs inputs a && overInputsList inputs as
-end
-
-/-- pairwise different under the structural comparison the cache uses -/
-def distinctB : List BExp → Bool
-  | [] => true
-  | x :: xs => xs.all (fun y => !(x == y)) && distinctB xs
-
-/-- no compound sub-expression occurs twice -/
-def treeLike (e : BExp) : Bool := distinctB (compSubs e)
+/- `compSubs`, `overInputs`, `distinctB`, `treeLike`, `inFragment` are defined in `QV/Model/Compiler.lean`
+(so that the driver can report membership of the class for every compiled instance). -/
 
 def Distinct (l : List BExp) : Prop := l.Pairwise (fun a b => (a == b) = false)
 
